@@ -535,6 +535,7 @@ struct init *parseinit(struct scope *, struct type *);
 /* stmt */
 
 void stmt(struct func *, struct scope *);
+void funcbody(struct func *, struct scope *);
 
 /* backend */
 
